@@ -273,6 +273,6 @@ def mutant(draw: Callable, src: str, max_ops: int = 3) -> tuple[str, list[str]]:
     if not applied:
         return src, []
     prg = oracle.try_parse(text)
-    if prg is None or astutil.may_ground_infinitely(prg) or oracle.grounds(text).status != "ok":
+    if prg is None or astutil.may_ground_infinitely(prg) or oracle.grounds_guarded(text) != "ok":
         return src, ["invalid_mutant"]
     return text, applied
